@@ -1500,6 +1500,7 @@ func main() {
 	runImages()
 	runTall()
 	runHintValues()
+	runRSS14()
 	chk.Finish()
 }
 
